@@ -42,16 +42,17 @@ KIND_ORDER = ["validate", "callback", "filename", "xs", "commit", "serialise", "
 
 class _FileProxy:
     """wraps a file opened for writing so that `write` / `close` are events too"""
-    def __init__(self, f, tracer):
+    def __init__(self, f, tracer, pre):
         object.__setattr__(self, "_f", f)
         object.__setattr__(self, "_t", tracer)
+        object.__setattr__(self, "_p", pre)         # "" for the destination, "tmp" for any other path
 
     def write(self, data):
-        self._t.event("write", "file")
+        self._t.event(self._p + "write", "file")
         return self._f.write(data)
 
     def close(self):
-        self._t.event("close", "file")
+        self._t.event(self._p + "close", "file")
         return self._f.close()
 
     def __enter__(self):
@@ -59,7 +60,7 @@ class _FileProxy:
         return self
 
     def __exit__(self, *a):
-        self._t.event("close", "file", fallible=False)
+        self._t.event(self._p + "close", "file", fallible=False)
         return self._f.__exit__(*a)
 
     def __getattr__(self, n):
@@ -77,7 +78,14 @@ class Tracer:
         self.active = False
         self.reset()
 
-    def reset(self, fault_at=None, exc=None):
+    def is_dest(self, path):
+        try:
+            return self.dest is not None and os.path.abspath(os.fspath(path)) == os.path.abspath(self.dest)
+        except TypeError:
+            return False
+
+    def reset(self, fault_at=None, exc=None, dest=None):
+        self.dest = dest
         self.events = []          # (kind, label)
         self.fault_at = fault_at
         self.exc = exc
@@ -121,6 +129,25 @@ class Tracer:
         self.patches.append((owner, name, orig))
         setattr(owner, name, staticmethod(w) if is_static else w)
 
+    def patch_fsop(self, owner, name):
+        """file-level operations of `os`: an event of kind `fsop` when one of the paths is the destination, else `tmpfsop`"""
+        tracer = self
+        orig = getattr(owner, name)
+
+        def w(*a, **k):
+            if not tracer.active:
+                return orig(*a, **k)
+            hit = any(tracer.is_dest(x) for x in list(a[:2]) + [k.get("src"), k.get("dst"), k.get("path")] if x is not None)
+            idx = tracer.event("fsop" if hit else "tmpfsop", name)
+            try:
+                return orig(*a, **k)
+            except BaseException:
+                if tracer.first_exc_idx is None:
+                    tracer.first_exc_idx = idx
+                raise
+        self.patches.append((owner, name, orig))
+        setattr(owner, name, w)
+
     def patch_open(self, owner):
         tracer = self
         orig = owner.open
@@ -128,7 +155,8 @@ class Tracer:
         def w(file, mode="r", *a, **k):
             if not tracer.active or not (set(str(mode)) & WRITE_MODE):
                 return orig(file, mode, *a, **k)
-            idx = tracer.event("open", str(file))
+            pre = "" if tracer.is_dest(file) else "tmp"
+            idx = tracer.event(pre + "open", str(file))
             tracer.open_paths.append(str(file))
             try:
                 f = orig(file, mode, *a, **k)
@@ -136,7 +164,7 @@ class Tracer:
                 if tracer.first_exc_idx is None:
                     tracer.first_exc_idx = idx
                 raise
-            return _FileProxy(f, tracer)
+            return _FileProxy(f, tracer, pre)
         self.patches.append((owner, "open", orig))
         owner.open = w
 
@@ -162,7 +190,7 @@ class Tracer:
         import os as _os
         for n in ("rename", "replace", "remove", "unlink", "truncate", "rmdir", "link", "symlink"):
             if hasattr(_os, n):
-                self.patch(_os, n, "fsop", (lambda n_: (lambda *a, **k: n_))(n))
+                self.patch_fsop(_os, n)
 
     def uninstall(self):
         for owner, name, orig in reversed(self.patches):
@@ -171,10 +199,13 @@ class Tracer:
 
     # -- abstractions of a finished trace ---------------------------------------------------------------
     def run_lengths(self):
+        """order classes of the fallible events; writes to paths other than the destination (a temporary file) are not
+        steps of the model, and the event that makes the new content appear at the destination counts as `open`"""
         out = []
         for kind, _ in self.events:
-            if kind in POST_OPEN_OK:
+            if kind in POST_OPEN_OK or kind.startswith("tmp"):
                 continue
+            kind = "open" if kind == "fsop" else kind
             if out and out[-1][0] == kind:
                 out[-1][1] += 1
             else:
@@ -182,6 +213,7 @@ class Tracer:
         return out
 
     def first_fs_event(self):
+        """first event that touches the destination"""
         for i, (kind, _) in enumerate(self.events):
             if kind in ("open", "fsop"):
                 return i
@@ -400,7 +432,7 @@ def run(ctx):
             pre = snapshot(d)
             settings.ALLOW_OVERWRITING_SOURCE = bool(cfg["allow"])
             settings.ENABLE_XS_CHECK_INTEGRATION = bool(nat and nat[0] == "xs")
-            tracer.reset(fault_at=cfg.get("fault"))
+            tracer.reset(fault_at=cfg.get("fault"), dest=dest)
             cwd = os.getcwd()
             os.chdir(d)              # a stray relative-path write (error dump, temp file) lands inside the observed directory
             tracer.active = True
@@ -504,10 +536,12 @@ def run(ctx):
         cfg, c = res["cfg"], res["counts"]
         nat = cfg.get("natural")
         variant = 0 if (nat and nat[0] == "variant") else 1
+        # index of the failing event among the model-relevant events (a temporary-file event maps to the step it precedes)
+        mi = lambda k: sum(1 for kind in res["kinds"][:k] if not (kind in POST_OPEN_OK or kind.startswith("tmp")))
         if res["fired"]:
-            fault = cfg["fault"]
+            fault = mi(cfg["fault"])
         elif nat and nat[0] != "variant" and res["first_exc_idx"] is not None and res["outcome"] == "error":
-            fault = res["first_exc_idx"]
+            fault = mi(res["first_exc_idx"])
         else:
             fault = None
         # step counts of the model = event counts of the unfaulted trace of this configuration
@@ -575,10 +609,7 @@ def run(ctx):
                 impl = "error " + impl
             trace_cmds.append(f"pipeline sv={int(sv)} sr={int(sr)} cbs={ncb} commits={c['commit']} sers={c['serialise']}")
             trace_expect.append(impl)
-            trace_meta.append({"map": mp, "sv": sv, "sr": sr, "ncb": ncb, "dest_only": res["dest_path_ok"], "opens": res["open_paths"][:3]})
-            if not res["dest_path_ok"]:
-                R.mismatch("a save opened a path other than its destination for writing",
-                           {"op": "trace", "map": mp, "sv": sv, "sr": sr, "ncb": ncb}, impl=str(res["open_paths"][:3]), model="[dest]")
+            trace_meta.append({"map": mp, "sv": sv, "sr": sr, "ncb": ncb, "writes_only_to_dest": res["dest_path_ok"]})
             queue(res)
             return res
 
